@@ -76,6 +76,30 @@ def balanced(rng, k, depth=0, in_quotes=False, maxwords=6):
     return s
 
 
+FIRST = ["Donald", "E.", "Per", "Jean-Paul", "{\\'E}douard", "J.", "Ludwig", "mary"]
+VON = ["van", "de", "la", "von", "der"]
+LAST = ["Knuth", "Brinch Hansen", "Beethoven", "{Barnes and Noble}", "M{\\\"u}ller", "Sartre", "O'Neil"]
+JR = ["Jr.", "III"]
+
+
+def name_list(rng):
+    names = []
+    for _ in range(rng.randint(1, 4)):
+        f = " ".join(rng.sample(FIRST, rng.randint(1, 2)))
+        v = rng.choice(VON) + " " if rng.random() < 0.3 else ""
+        l = rng.choice(LAST)
+        r = rng.random()
+        if r < 0.4:
+            names.append(f"{f} {v}{l}")
+        elif r < 0.8:
+            names.append(f"{v}{l}, {f}")
+        elif r < 0.92:
+            names.append(f"{v}{l}, {rng.choice(JR)}, {f}")
+        else:
+            names.append(rng.choice(["others", "Last,", "a, b, c, d", "{unbalanced", l]))
+    return rng.choice([" and ", " and ", " AND ", "\n and "]).join(names)
+
+
 def piece(rng, k, strkeys):
     r = rng.random()
     if r < 0.55:
@@ -167,7 +191,12 @@ def make_doc(rng, knobs=None):
                     emit(seg)
                     same_line = "\n" not in seg
                     eq_pos = pos
-                    v = value(rng, k, string_keys)
+                    if k.get("names") and fk in ("author", "editor") and rng.random() < 0.85:
+                        v = "{" + name_list(rng) + "}"
+                    elif k.get("names") and fk == "month" and rng.random() < 0.8:
+                        v = rng.choice(["jan", "{February}", "3", "{12}", "\"dec\"", "13", "Mar", "{sept}"])
+                    else:
+                        v = value(rng, k, string_keys)
                     emit("=" + _ws(rng, k, "eq") + v)
                     fields.append({"key": fk, "value": v, "eq_pos": eq_pos, "key_pos": fstart, "same_line": same_line})
                 if nf == 0 or rng.random() < 0.4:
